@@ -45,10 +45,33 @@ def wrapper(rep, f, c, fn, inner, errvar, repl, is_enc):
         rep.undecidable('C09-D1', fn, 'expected exactly one loop, found %d' % len(heads), site, c)
         return
     H = heads[0]
-    flag = named(b, 'had_unmappables' if is_enc else 'had_errors')
-    TRl, TWl = named(b, 'total_read'), named(b, 'total_written')
+    # roles are discovered structurally (robust to renamed locals): the loop-carried locals used to slice src / dst for the inner
+    # call, and the bool that is false before the loop and set to true inside it
+    flag = TRl = TWl = effl0 = None
+    try:
+        probe = region_paths(b, H)
+    except OverflowError as e:
+        rep.undecidable('C09-D1', fn, str(e), site, c)
+        return
+    for p_ in probe:
+        ic_ = [e for e in p_.calls() if e[1] == inner]
+        if len(ic_) == 1:
+            s_ix, d_ix = index_from(ic_[0][2][1]), index_from(ic_[0][2][2])
+            if s_ix and s_ix[1][0] == 'init':
+                TRl = s_ix[1][1]
+            if d_ix and d_ix[1][0] == 'init':
+                TWl = d_ix[1][1]
+            if d_ix and len(d_ix) == 3 and d_ix[2][0] == 'init':
+                effl0 = d_ix[2][1]
+    in_loop = b.reach_from([H])
+    for i, l in enumerate(b.locals):
+        if l['ty'] == 'bool' and i > b.arg_count:
+            ds = [d for d in b.defs.get(i, []) if d[2] == 'assign' and 'use' in d[3]['rv'] and op_int(d[3]['rv']['use']) is not None]
+            vals = sorted((op_int(d[3]['rv']['use']), d[0] in in_loop and d[0] != 0) for d in ds)
+            if len(b.defs.get(i, [])) == 2 and [v for v, _ in vals] == [0, 1] and any(v == 1 and inl for v, inl in vals):
+                flag = i
     if None in (flag, TRl, TWl):
-        rep.undecidable('C09-D1', fn, 'accumulator locals not found', site, c)
+        rep.undecidable('C09-D1', fn, 'accumulators (read/written totals, error flag) not found', site, c)
         return
     SRC, DST, LAST = ('loc', 2), ('loc', 3), ('loc', 4)
     TR, TW, FL = ('init', TRl), ('init', TWl), ('init', flag)
@@ -67,7 +90,7 @@ def wrapper(rep, f, c, fn, inner, errvar, repl, is_enc):
     ob('init', ok_init, 'flag/total_read/total_written are not initialised to false/0/0 before the loop')
     eff = None
     if is_enc:
-        effl = named(b, 'effective_dst_len')
+        effl = effl0
         eff = ('init', effl) if effl is not None else None
         # effective_dst_len: dst_len when can_encode_everything, dst_len - NCR_EXTRA otherwise
         ncr = f.consts.get('NCR_EXTRA', {}).get('int')
@@ -220,10 +243,21 @@ def write_ncr(rep, f, c):
         rep.undecidable('C09-D2', fn, 'function not found', None, c)
         return
     site = sp_str(b.raw['span'])
-    lenl = named(b, 'len')
+    r00 = Resolver(b)
+    rv00 = r00.local(0)
+    if rv00 == ('loc', 0):
+        ds00 = b.defs.get(0, [])
+        rv00 = r00.rvalue(ds00[0][3]['rv']) if len(ds00) == 1 and ds00[0][2] == 'assign' else rv00
+    lenl = rv00[1] if rv00[0] == 'loc' else None          # the local that is returned
     CHAR = ISet.of((0, 0xD7FF), (0xE000, 0x10FFFF))
     heads = loop_heads(b)
-    numl = named(b, 'number')
+    numl = None
+    for i, l in enumerate(b.locals):
+        if l['ty'] == 'u32' and len(b.defs.get(i, [])) >= 2 and any(d[2] == 'assign' and Resolver(b).rvalue(d[3]['rv']) == ('cast', 'IntToInt', ('loc', 1), 'u32') for d in b.defs.get(i, [])):
+            numl = i
+    if lenl is None or numl is None:
+        rep.undecidable('C09-D2', fn, 'length / number locals not found', site, c)
+        return
     # before the digit loop `number` is exactly `unmappable as u32` (its only other definition is inside the loop)
     r0 = Resolver(b)
     pre_defs = [r0.rvalue(n['rv']) for bi, si, k, n in b.defs.get(numl, []) if k == 'assign' and bi not in b.reach_from(heads)]
@@ -274,7 +308,7 @@ def write_ncr(rep, f, c):
            {'stores': [(expr_str(s[1], b), expr_str(s[2], b)[:60]) for s in stores]}, c)
     if semi:
         # index of ';' is len - 1 at that point: the reaching value of pos is Sub(len, 1)
-        posl = named(b, 'pos')
+        posl = semi[0][1][1] if semi[0][1][0] == 'loc' else None
         pd = [r.rvalue(n['rv']) for bi, si, k, n in b.defs.get(posl, []) if k == 'assign']
         rep.ob('C09-D2.semicolon', fn, ('bin', 'Sub', ('loc', lenl), C(1)) in pd and semi[0][1] == ('loc', posl) and
                reaching_defs(b, posl)[semi[0][0]] and all(r.rvalue(b.blocks[d[0]]['s'][d[1]]['rv']) == ('bin', 'Sub', ('loc', lenl), C(1))
@@ -288,7 +322,6 @@ def write_ncr(rep, f, c):
         if v[0] == 'bin' and v[1] == 'Add' and is_c(v[3], 0x30):
             inner = cast_inner(v[2])
             okd = inner[0] == 'bin' and inner[1] == 'Rem' and is_c(inner[3], 10)
-    numl = named(b, 'number')
     nd = [r.rvalue(n['rv']) for bi, si, k, n in b.defs.get(numl, []) if k == 'assign']
     okdiv = any(e[0] == 'bin' and e[1] == 'Div' and e[2] == ('loc', numl) and is_c(e[3], 10) for e in nd)
     rep.ob('C09-D2.digits', fn, okd and okdiv, 'digit loop is not (number % 10) + b\'0\' with number /= 10', site, None, c)
